@@ -249,7 +249,17 @@ func main() {
 						left = 0
 					}
 
-					deadline = time.Now().Add(left / time.Duration(len(engines)-i))
+					// share the remaining time in proportion to the work left: prefixes x letters
+					w, rest := fe.workLeft(), 0.0
+					for _, f2 := range engines[i:] {
+						rest += f2.workLeft()
+					}
+
+					if rest > 0 {
+						deadline = time.Now().Add(time.Duration(float64(left) * w / rest))
+					} else {
+						deadline = time.Now().Add(left)
+					}
 				}
 
 				fe.runLevel(deadline, report)
@@ -418,12 +428,13 @@ func main() {
 		}
 	}
 
-	code := rep.Finish()
 	if harnessErr != "" {
+		// a harness error is never a verdict: no VIOLATION lines, no evidence
 		fmt.Fprintln(os.Stderr, "c12: harness error:", harnessErr)
-
-		code = 2
+		os.Exit(2)
 	}
+
+	code := rep.Finish()
 
 	e := ev.Evidence{
 		PropertyID: *id, Tier: *tier, Seed: ev.Seed(), Level: "fault_enumeration",
@@ -468,10 +479,8 @@ func main() {
 		Violations: rep.NewCount(),
 	}
 
-	if code != 2 {
-		if err := ev.Write(filepath.Join(verifDir, "evidence", *id+".json"), e); err != nil {
-			die("evidence: %v", err)
-		}
+	if err := ev.Write(filepath.Join(verifDir, "evidence", *id+".json"), e); err != nil {
+		die("evidence: %v", err)
 	}
 
 	fmt.Printf("c12: tier=%s bfs systems=%d states=%d transitions=%d (depth %d/%d) | fault: histories=%d runs=%d single-fault=%d classes=%d length %d/%d | FnVFS covered %d/%d (+%d listed unreachable) | new signatures=%d exhaustive=%v wall=%.1fs\n",
